@@ -3,7 +3,7 @@ amaranth_soc/csr/wishbone.py `WishboneCSRBridge.__init__`, amaranth_soc/wishbone
 its `init` property pair, amaranth_soc/gpio.py `PinMode` (class statement), `PinSignature.__init__`,
 `Peripheral.Mode / Input / Output / Output._FieldAction / SetClr .__init__`, `Peripheral.__init__`, and
 amaranth_soc/csr/action.py every class' `__init__` (R, W, RW, RW1C, RW1S, _Reserved and the four classes that inherit
-it).  Regenerated as monadic Gallina (`res`, Lib/Res.v) in the code's statement and evaluation order on every run
+it).  Regenerated as monadic Gallina (`comp`, Lib/PyVal.v: return / raise / branch on a boolean) in the code's statement and evaluation order on every run
 -> Gen/PeriphGen.v.  Gen/TiePeriph.v proves the generated constructors equal to the models' constructor functions
 (Model/WbCsrBridge.v construct, Model/Sram.v construct, Model/Gpio.v ctor / place / reg_specs, Model/Actions.v
 has_storage / init_state) for ALL argument values.
@@ -17,7 +17,7 @@ Every Python value is a `pv` (coq/Lib/PyVal.v) - the translation is untyped, lik
 * int = YInt z; a float equal to an integer = YFloat z; bool = YBool; None = YNone; str = YStr; YBad = any other
   object that is not a number (unequal to every number, arithmetic / ordering with it raise TypeError, truthy).
   Operators are the total functions of Lib/PyVal.v (`py_arith`, `py_cmp`, `py_eq`, `py_in`, `py_truth`, ...),
-  which return `res`: `None <= 0` is Err TypeError, `x // 0` Err OtherError, `8.0 in (8, 16)` is true, `and` / `or`
+  which return `comp`: `None <= 0` is Raise TypeError, `x // 0` Raise OtherError, `8.0 in (8, 16)` is true, `and` / `or`
   / conditional expressions evaluate their operands lazily, left to right.
 * tuple / list / dict displays and list comprehensions (one `for`, no `if`) build YTuple / YList / YDict values;
   they are immutable in the translation: any statement that would mutate one (`d[k] = v`, `.append`) aborts, so
@@ -44,11 +44,11 @@ Every Python value is a `pv` (coq/Lib/PyVal.v) - the translation is untyped, lik
   Gen/TiePeriph.v instantiates W with hand-written specifications of the foreign classes (MemoryMap, MemoryData,
   Memory, wishbone.Signature, csr.Builder, csr.Bridge, csr.Register / FieldAction / Component base constructors)
   and relates the result and the trace to the model.
-* `self.x = v` is an EvSet on self and binds `self.x` for the rest of the method; exceptions are `res` values:
+* `self.x = v` is an EvSet on self and binds `self.x` for the rest of the method; exceptions are `Raise e`:
   ValueError / TypeError / KeyError / AssertionError keep their name, every other class is OtherError; the
   arguments of the exception (messages, f-strings) are not evaluated.
 * `if` statements: an arm that always raises / returns needs no join; otherwise the variables (and `self.x`)
-  assigned in either arm and the trace are joined (`let! '(x, tr) := if c then .. else ..`); a local that is bound
+  assigned in either arm and the trace are joined (`let* '(x, tr) := Branch c .. ..`); a local that is bound
   on one path only is unbound afterwards (reading it aborts the translation).
 * not supported (abort): loops, while, with, try, del, global, lambda, starred / ** arguments, chained comparisons,
   slices, f-strings outside `raise`, augmented assignment to anything but a local, tuple assignment, a foreign call
@@ -109,7 +109,7 @@ class Binds:
         self.items.append(("let", pat, term))
 
     def letm(self, pat, term):
-        self.items.append(("let!", pat, term))
+        self.items.append(("let*", pat, term))
 
     def wrap(self, body):
         for kind, pat, term in reversed(self.items):
@@ -264,13 +264,13 @@ class Fn:
         return t
 
     def sub(self, st, env, node, want):
-        """node translated on its own (lazily evaluated operand): a term of type res pv / res bool"""
+        """node translated on its own (lazily evaluated operand): a term of type comp pv / comp bool"""
         s2 = St(st.tr)
         v = self.ex(node, env, s2)
         if s2.tr != st.tr:
             raise Untranslatable("foreign call or store inside a lazily evaluated operand / comprehension body")
         a = self.pv(v, s2) if want == "pv" else self.bool(v, s2)
-        return s2.b.wrap(f"Ok {a}")
+        return s2.b.wrap(f"(Ret {a})")
 
     def global_value(self, path):
         """a dotted name that is not a local: class constant, or YGlobal"""
@@ -339,17 +339,17 @@ class Fn:
                 if s2.tr != st.tr:
                     raise Untranslatable("foreign call inside the lazily evaluated operand of and / or")
                 if term is None:
-                    inner = f"Ok {c}"
+                    inner = f"(Ret {c})"
                 elif isinstance(n.op, ast.Or):
-                    inner = f"(if {c} then Ok true else\n  {term})"
+                    inner = f"(Branch {c} (Ret true)\n  {term})"
                 else:
-                    inner = f"(if {c} then\n  {term}\n  else Ok false)"
+                    inner = f"(Branch {c}\n  {term}\n  (Ret false))"
                 term = s2.b.wrap(inner)
             r = self.fresh("c")
             if isinstance(n.op, ast.Or):
-                st.b.letm(r, f"(if {first} then Ok true else\n  {term})")
+                st.b.letm(r, f"(Branch {first} (Ret true)\n  {term})")
             else:
-                st.b.letm(r, f"(if {first} then\n  {term}\n  else Ok false)")
+                st.b.letm(r, f"(Branch {first}\n  {term}\n  (Ret false))")
             return V(r, "bool")
         if isinstance(n, ast.Compare):
             if len(n.ops) != 1:
@@ -377,7 +377,7 @@ class Fn:
         if isinstance(n, ast.IfExp):
             c = self.bool(self.ex(n.test, env, st), st)
             r = self.fresh("x")
-            st.b.letm(r, f"(if {c} then {self.sub(st, env, n.body, 'pv')} else {self.sub(st, env, n.orelse, 'pv')})")
+            st.b.letm(r, f"(Branch {c} {self.sub(st, env, n.body, 'pv')} {self.sub(st, env, n.orelse, 'pv')})")
             return V(r)
         if isinstance(n, (ast.Tuple, ast.List)):
             if any(isinstance(e, ast.Starred) for e in n.elts):
@@ -640,7 +640,7 @@ class Fn:
         return name.id if name.id in EXC else "OtherError"
 
     def block(self, body, env, tr, k):
-        """`body`, then the continuation k(env, tr); a Coq term of type res (pv * trace)"""
+        """`body`, then the continuation k(env, tr); a Coq term of type comp (pv * trace)"""
         if not body:
             return k(env, tr)
         s, rest = body[0], body[1:]
@@ -648,11 +648,11 @@ class Fn:
                                        and isinstance(s.value.value, str)):
             return self.block(rest, env, tr, k)
         if isinstance(s, ast.Raise):
-            return f"(Err {self.exc(s)})"
+            return f"(Raise {self.exc(s)})"
         st = St(tr)
         if isinstance(s, ast.Return):
             v = "YNone" if s.value is None else self.pv(self.ex(s.value, env, st), st)
-            return st.b.wrap(f"Ok ({v}, {st.tr})")
+            return st.b.wrap(f"(Ret ({v}, {st.tr}))")
         if isinstance(s, ast.Expr):
             if not isinstance(s.value, ast.Call):
                 raise Untranslatable("expression statement that is not a call")
@@ -660,7 +660,7 @@ class Fn:
             return st.b.wrap(self.block(rest, env, st.tr, k))
         if isinstance(s, ast.Assert):
             c = self.bool(self.ex(s.test, env, st), st)
-            return st.b.wrap(f"(if negb {c} then Err AssertionError else\n  {self.block(rest, env, st.tr, k)})")
+            return st.b.wrap(f"(Branch {c}\n  {self.block(rest, env, st.tr, k)}\n  (Raise AssertionError))")
         if isinstance(s, (ast.Assign, ast.AugAssign)):
             if isinstance(s, ast.Assign):
                 if len(s.targets) != 1:
@@ -705,16 +705,16 @@ class Fn:
                 dead = lambda e, t: (_ for _ in ()).throw(Untranslatable("unreachable continuation reached"))
                 a = self.block(s.body, env, st.tr, dead)
                 b = self.block(list(s.orelse) + list(rest), env, st.tr, k)
-                return st.b.wrap(f"(if {c} then\n  {a}\n  else\n  {b})")
+                return st.b.wrap(f"(Branch {c}\n  {a}\n  {b})")
             if self.terminates(s.orelse):
                 dead = lambda e, t: (_ for _ in ()).throw(Untranslatable("unreachable continuation reached"))
                 a = self.block(list(s.body) + list(rest), env, st.tr, k)
                 b = self.block(s.orelse, env, st.tr, dead)
-                return st.b.wrap(f"(if {c} then\n  {a}\n  else\n  {b})")
+                return st.b.wrap(f"(Branch {c}\n  {a}\n  {b})")
             if self.has_return(s.body) or self.has_return(s.orelse):
                 a = self.block(list(s.body) + list(rest), env, st.tr, k)
                 b = self.block(list(s.orelse) + list(rest), env, st.tr, k)
-                return st.b.wrap(f"(if {c} then\n  {a}\n  else\n  {b})")
+                return st.b.wrap(f"(Branch {c}\n  {a}\n  {b})")
             names = self.assigned(s.body) + [x for x in self.assigned(s.orelse) if x not in self.assigned(s.body)]
             # pass 1: which of them are bound at the end of every path through both arms
             ends = []
@@ -731,7 +731,7 @@ class Fn:
             # pass 2: the arms, ending in the tuple of the joined values and the trace
             def arm_end(e, t):
                 vals = [self.pv(e[x], None) for x in joined]
-                return "Ok (" + ", ".join(vals + [t]) + ")" if vals else f"Ok {t}"
+                return "(Ret (" + ", ".join(vals + [t]) + "))" if vals else f"(Ret {t})"
             ta = self.block(s.body, env, st.tr, arm_end)
             tb = self.block(s.orelse, env, st.tr, arm_end)
             env2 = dict(env)
@@ -744,7 +744,7 @@ class Fn:
                 fresh.append(nm)
             trn = self.fresh("tr")
             pat = "'(" + ", ".join(fresh + [trn]) + ")" if fresh else trn
-            st.b.letm(pat, f"(if {c} then\n  {ta}\n  else\n  {tb})")
+            st.b.letm(pat, f"(Branch {c}\n  {ta}\n  {tb})")
             return st.b.wrap(self.block(rest, env2, trn, k))
         raise Untranslatable("statement " + type(s).__name__)
 
@@ -792,7 +792,7 @@ def method(m, ci, fn, suffix):
     f = Fn(m, ci, fn, coq)
     env = {p: V("a_" + ident(p)) for p in f.params}
     is_init = fn.name == "__init__"
-    body = f.block(fn.body, env, "tr_0", lambda e, t: f"Ok ({'self' if is_init else 'YNone'}, {t})")
+    body = f.block(fn.body, env, "tr_0", lambda e, t: f"(Ret ({'self' if is_init else 'YNone'}, {t}))")
     if is_init:
         # __init__ returns None; the generated function returns the object for the caller's convenience only when it
         # falls off the end.  An explicit `return` inside __init__ gives YNone: both mean "constructed".
@@ -807,7 +807,7 @@ def method(m, ci, fn, suffix):
             raise Untranslatable(f"{coq}: default of {p} is not a plain value")
         m.out.append(f"Definition {coq}_default_{ident(p)} : pv := {dv}.")
     m.out.append(f"(* {m.rel}: {ci.qual}.{fn.name}{' (' + suffix + ')' if suffix != ident(fn.name) else ''} *)\n"
-                 f"Definition {coq} (W : world) (tr_0 : trace) (self : pv){ps} : res (pv * trace) :=\n  {body}.\n")
+                 f"Definition {coq} (W : world) (tr_0 : trace) (self : pv){ps} : comp (pv * trace) :=\n  {body}.\n")
     return coq, f
 
 
@@ -840,7 +840,7 @@ def translate_module(repo, rel, prefix, extra):
                 m.out.append(f"(* {rel}: {qual} inherits {owner.qual}.__init__ *)\n"
                              f"Definition {m.cname(qual)}_init (W : world) (tr_0 : trace) (self : pv)"
                              + "".join(f" (a_{ident(p)} : pv)" for p in f.params)
-                             + f" : res (pv * trace) :=\n  {coq} W tr_0 self {ps}.\n")
+                             + f" : comp (pv * trace) :=\n  {coq} W tr_0 self {ps}.\n")
         for name in extra.get(qual, []):
             fns = ci.methods.get(name, [])
             if not fns:
